@@ -381,6 +381,25 @@ class AttrHolder(object):
     pass
 
 
+class _SharedWait(object):
+    """Stands for 'the computation being waited for' when that is a task created elsewhere."""
+
+    def __init__(self, leaf):
+        self.leaf = leaf
+        self.path = leaf.path
+
+    @property
+    def done(self):
+        return leaf_done(self.leaf)
+
+
+def leaf_done(leaf):
+    try:
+        return leaf.obj.is_computed()
+    except Exception:
+        return False
+
+
 # ---------------------------------------------------------------------------
 
 
@@ -704,6 +723,8 @@ class HarnessRT(object):
             leaf = HLeaf(kind, l, pos, it, inst)
         elif kind == "const":
             leaf = HLeaf(kind, l, pos, ConstFuture(lang._freeze(l[1])), inst)
+        elif kind == "constexc":
+            leaf = HLeaf(kind, l, pos, ConstFuture(UserErr(("value", l[1]))), inst)
         elif kind == "err":
             tag = ("err", l[1], inst)
             e = UserErr(tag) if l[2] == "exc" else UserBaseErr(tag)
@@ -713,6 +734,9 @@ class HarnessRT(object):
             leaf = HLeaf(kind, l, pos, self._lazy(l[1], inst, l[2]), inst)
         elif kind == "runaway":
             leaf = HLeaf(kind, l, pos, t_runaway.asynq(self, l[1]), inst)
+        elif kind == "lazyrunaway":
+            # a lazily computed future whose provider calls asynq code synchronously
+            leaf = HLeaf(kind, l, pos, Future(lambda n=l[1]: t_runaway(self, n)), inst)
         else:
             raise HarnessFault("leaf %r" % (kind,))
         fr.futs.append(leaf)
@@ -743,6 +767,30 @@ class HarnessRT(object):
         fr.futs.pop()
         self.orphans.append(leaf)
         self.emit("orphan", leaf.kind, leaf.path if leaf.path is not None else leaf.inst)
+
+    def sync_shared(self, fr, st):
+        sid = st[1]
+        if sid in self.shared:
+            leaf = self.shared[sid]
+        else:
+            path = ("S", sid)
+            leaf = HLeaf("shared", ["shared", sid], 0, self.call(self.prog["shared"][sid], path, fr), (fr.path, "ss", sid), path)
+            self.shared[sid] = leaf
+        self.emit("sync_enter", fr.path, ("S", sid))
+        self.sync_depth += 1
+        target = self.frames.get(("S", sid)) or Frame(self.prog["shared"][sid], ("S", sid), fr)
+        self.wait_frames.append(_SharedWait(leaf))
+        ok = False
+        try:
+            v = leaf.obj.value()
+            ok = True
+            return v
+        finally:
+            self.wait_frames.pop()
+            self.sync_depth -= 1
+            self.emit("sync_exit", fr.path, ("S", sid))
+            for p in self.sync_probes:
+                p(self, fr, ok)
 
     def cancel_batch(self, fr, st):
         b = self.active_batches.get(st[1])
